@@ -182,6 +182,139 @@ def op_case_coq(st, cut, g, want):
     return "(%s, %s, %s, %s, %s, %s, %s)" % (coq_z(i), coq_z(first), coq_z(last), mode, aggs, coq_list(chunks), wrows)
 
 
+# ------------------------------------------------------------------------------------------------
+# operator level, aggregation / limit / merge operators (harness cmd/c08op agg.go limit.go merge.go)
+
+OPFN = {"count": "FCount", "sum": "FSum", "min": "FMin", "max": "FMax", "first": "FFirst", "last": "FLast"}
+
+
+def coq_cells(cells):
+    return coq_list(["CNull" if v is None else "(CVal %s)" % coq_z(v) for v in cells])
+
+
+def cut_chunks(items, cut):
+    chunks, pos = [], 0
+    for n in cut:
+        if pos >= len(items):
+            break
+        chunks.append(items[pos:pos + n])
+        pos += n
+    return chunks
+
+
+def agg_key(st, g, t):
+    return g * 1000 + (t // 10 if st["has_iv"] else 0)
+
+
+def aggcase_coq(c):
+    st = c["stream"]
+    aggs = coq_list(["(%s, %d%%nat, 1%%Z)" % (OPFN[k["fn"]], k["col"]) for k in st["calls"]])
+    rows = ["(%s, (%s, %s))" % (coq_z(agg_key(st, r["g"], r["t"])), coq_z(r["t"]),
+                                coq_list([opt_z(v) for v in r["v"]])) for r in st["rows"]]
+    chunks = coq_list([coq_list(ch) for ch in cut_chunks(rows, c["cut"])])
+    exact = len(st["calls"]) == 1 and st["calls"][0]["fn"] in ("min", "max", "first", "last") and not st["desc"]
+    want = coq_list(["(%s, %s, %s)" % (coq_z(w["g"] * 1000 + w["w"]), opt_z(w["t"] if exact else None), coq_cells(w["c"]))
+                     for w in c["want"]])
+    return "(%s, %s, %s)" % (aggs, chunks, want)
+
+
+def limitcase_coq(c):
+    st = c["stream"]
+    ids = [coq_z(i) for i in range(len(st["rows"]))]
+    chunks = coq_list([coq_list(ch) for ch in cut_chunks(ids, c["cut"])])
+    lo = min(st["offset"], len(ids))
+    hi = min(st["offset"] + st["limit"], len(ids))
+    return "(%d%%nat, %d%%nat, %s, %s)" % (st["offset"], st["limit"], chunks, coq_list(ids[lo:hi]))
+
+
+def mrow_arow(r, key):
+    return "(%s, %s)" % (coq_z(key), coq_cells(r["c"]))
+
+
+def mergecase_coq(c):
+    """(kind, term). Descending streams are mirrored: a descending order is the reverse of the ascending total order."""
+    st = c["stream"]
+    desc = st["desc"]
+    if st["kind"] == "sortmerge":
+        enc = lambda r: mrow_arow(r, r["g"] * 100000 + r["t"])
+        ins = [[enc(r) for r in (reversed(i) if desc else i)] for i in st["inputs"]]
+        got = [enc(r) for r in (reversed(c["got"]) if desc else c["got"])]
+        return "(%s, %s)" % (coq_list([coq_list(i) for i in ins]), coq_list(got))
+    hasiv = st["has_iv"]
+    key = lambda r: (r["g"] * 1000 + (r["t"] // 10 if hasiv else 0)) * (-1 if desc else 1)
+    enc = lambda r: "(%s, (%s, %s))" % (coq_z(key(r)), coq_z(r["t"]), coq_cells(r["c"]))
+    return "(%s, %s)" % (coq_list([coq_list([enc(r) for r in i]) for i in st["inputs"]]), coq_list([enc(r) for r in c["got"]]))
+
+
+def op_size(c):
+    st = c["stream"]
+    n = len(st["rows"]) if "rows" in st else sum(len(i) for i in st["inputs"])
+    cuts = c.get("cut") or [x for cc in c.get("cuts", []) for x in cc]
+    return (n, len(cuts), c["chunk_size"])
+
+
+def op_more(ck, out, coq_ok):
+    """aggregation, limit and merge operators: direct oracle verdicts + recomputation by the Coq L2 operators"""
+    groups = {"aggcase": [], "limitcase": [], "mergecase": []}
+    for l in out.splitlines():
+        for k in groups:
+            if l.startswith('{"%s"' % k):
+                groups[k].append(json.loads(l)[k])
+    names = {"aggcase": "StreamAggregateTransform", "limitcase": "LimitTransform", "mergecase": "MergeTransform/SortedMergeTransform"}
+    cov = {}
+    for k, cases in groups.items():
+        if not cases:
+            ck.broken.append("harness c08op produced no %s lines" % k)
+            continue
+        bad = sorted([c for c in cases if c.get("fail")], key=op_size)
+        for c in bad[:1]:
+            ck.violation({"kind": "direct-oracle-operator", "operator": names[k],
+                          "what": "real %s: oracle %s failed on this cut of a small stream (%d failing cases of %d; the smallest is shown)" % (
+                              names[k], c["fail"], len(bad), len(cases)), k: c}, tag="op-" + k)
+        cov[k] = {"cases": len(cases), "failing": len(bad)}
+    if not coq_ok:
+        return cov
+    files = []
+
+    def shard(name, typ, fn, items):
+        for i in range(0, len(items), 300):
+            txt = ("From Coq Require Import ZArith List Bool. From OG Require Import C08.Model C08.Pipe C08.Corr.\n"
+                   "Import ListNotations. Open Scope Z_scope.\n"
+                   "Definition cases : list %s := [\n%s\n].\n"
+                   "Definition M := Eval vm_compute in %s cases.\nPrint M.\n") % (typ, ";\n".join(items[i:i + 300]), fn)
+            files.append(("%s_%d" % (name, i), name, txt))
+
+    def uniq(cases, keyf):
+        seen, res = set(), []
+        for c in cases:
+            key = json.dumps([c["stream"], keyf(c)], sort_keys=True)
+            if key not in seen:
+                seen.add(key)
+                res.append(c)
+        return res
+
+    ua = uniq(groups["aggcase"], lambda c: c["cut"])
+    ul = uniq(groups["limitcase"], lambda c: c["cut"])
+    okm = [c for c in groups["mergecase"] if not c.get("fail")]
+    shard("aggop", "aggop_case", "aggop_mismatches", [aggcase_coq(c) for c in ua])
+    shard("limitop", "limitop_case", "limitop_mismatches", [limitcase_coq(c) for c in ul])
+    shard("sortmerge", "sortmerge_case", "sortmerge_mismatches", [mergecase_coq(c) for c in okm if c["stream"]["kind"] == "sortmerge"])
+    shard("kmerge", "kmerge_case", "kmerge_mismatches", [mergecase_coq(c) for c in okm if c["stream"]["kind"] == "merge"])
+    mism = {}
+    for (fname, name, _), (rc2, o) in zip(files, ck.coq_eval_many([(f, t) for f, _, t in files])):
+        m = re.search(r"M\s*=\s*(.*?)\s*:\s*list", o, re.S)
+        if rc2 != 0 or not m:
+            ck.broken.append("operator-level model evaluation failed (%s): %s" % (fname, o[-600:]))
+            continue
+        mism[name] = mism.get(name, 0) + len(re.findall(r"\d+", m.group(1)))
+    for name, n in sorted(mism.items()):
+        if n:
+            ck.broken.append("correspondence C08 (operator level, %s): the Coq L2 operator and the harness disagree on %d cases" % (name, n))
+    cov["recomputed_by_coq"] = {"aggop": len(ua), "limitop": len(ul), "merge": len(okm)}
+    cov["coq_mismatches"] = mism
+    return cov
+
+
 PRIORITY = ["C08-time-window-agg-store", "C08-desc-first-last", "C08-multicolumn-first-last-across-series", "C08-fill-previous-desc",
             "C08-desc-selector-tie", "C08-tie-order", "C08-limit-prune-time-range",
             "C08-fill-split-path", "C08-fill-previous-multicolumn", "C08-fill-null-count-fastpath", "C08-fill-previous-single-row-group"]
@@ -263,7 +396,8 @@ def op_level(ck, coq_ok, known_counts):
         ncoq = len(items)
         if mism:
             ck.broken.append("correspondence C08 (operator level): Coq fill_group_chunks and the Go specification twin disagree on %d group cases" % mism)
-    return {"cases": len(ops), "streams": n, "failing_known": sum(hits.values()), "failing_unexplained": len(bad),
+    more = op_more(ck, out, coq_ok)
+    return {"more_operators": more, "cases": len(ops), "streams": n, "failing_known": sum(hits.values()), "failing_unexplained": len(bad),
             "passing": sum(1 for c in ops if not c.get("fail")), "group_cases_recomputed_by_coq": ncoq, "coq_mismatches": mism,
             "rule": "case = (stream, ChunkSize in {1024,1,2,3,5}, cut of the input rows: uncut, every single cut position, all singletons, 2 random cuts)"}
 
